@@ -392,7 +392,7 @@ def lifted_is_number(orig):
             v = sp.sympify(value)
         except Exception:
             return orig(value)
-        if isinstance(v, sp.Basic) and v.free_symbols and only_vs(v):
+        if isinstance(v, sp.Basic) and v.free_symbols and only_vs(v) and not v.atoms(sp.physics.units.Quantity):
             return True
         return orig(value)
     return is_number
